@@ -81,13 +81,13 @@ impl BinOp {
             Self::Or => left | right,
             Self::Xor => left ^ right,
             Self::And => left & right,
-            Self::ShiftLeft => left << right,
-            Self::ShiftRight => left >> right,
-            Self::Plus => left + right,
-            Self::Minus => left - right,
-            Self::Times => left * right,
-            Self::Divide => left / right,
-            Self::Reminder => left % right,
+            Self::ShiftLeft => left.wrapping_shl(right as u32),
+            Self::ShiftRight => left.wrapping_shr(right as u32),
+            Self::Plus => left.wrapping_add(right),
+            Self::Minus => left.wrapping_sub(right),
+            Self::Times => left.wrapping_mul(right),
+            Self::Divide => left.wrapping_div(right),
+            Self::Reminder => left.wrapping_rem(right),
         })
     }
 }
@@ -95,7 +95,7 @@ impl BinOp {
 impl UnaryOp {
     fn eval(&self, val: i64) -> i64 {
         match self {
-            Self::Minus => -val,
+            Self::Minus => val.wrapping_neg(),
             Self::LogicalNot => (val == 0) as i64,
             Self::BinaryNot => !val,
         }
